@@ -61,7 +61,7 @@ def _preorder(t, out=None):
 SET_PROPS = [("tts:color", "red"), ("tts:backgroundColor", "blue"), ("tts:opacity", "0.5"), ("tts:visibility", "hidden"),
              ("tts:fontStyle", "italic"), ("tts:fontWeight", "bold")]
 
-B, D, E = "1s", "2s", "3s"
+B, D, E = "1s", "2.5s", "3s"      # begin + dur = 3.5 > end = 3: with a begin the end limits, without it the dur limits
 FULL_T = [(b, d, e) for b in (None, B) for d in (None, D) for e in (None, E)]
 RED_T = [(None, None, None), (B, None, None), (None, None, E), (B, D, None)]
 RED3_T = [(None, None, None), (None, None, E), (B, D, None)]
